@@ -28,9 +28,10 @@ def plan(tier):
                              '(the approximation the property exempts); see vp/oracles/conical.py'])
 
 
-def oracle_k0(p, d):
-    """O2 for plate / cpanel / plate_w after p.calc_k0 has derived r, alpharad"""
-    nx, ny = energy.exact_orders(p)
+def oracle_k0(p, d, orders=None):
+    """O2 for plate / cpanel / plate_w after p.calc_k0 has derived r, alpharad; orders=(nx, ny): the discretised energy on
+    that Gauss grid (what the numerical path of calc_k0 must return for the same orders), default: exact orders"""
+    nx, ny = energy.exact_orders(p) if orders is None else orders
     xs, ys, w = energy.gauss_grid(p, nx, ny)
     if d['model'] == 'plate_w':
         # the w-only field module offers no strain recovery: ctypes basis + flat Donnell table
@@ -164,6 +165,24 @@ def run_case(rng, tier, idx):
             ratio, ij = entrywise_excess(b2, Ko2, S2, tol)
             c.judge('k0 of the redefined object equals the energy Hessian of the new definition', ratio * tol, tol,
                     data={'what': what, 'entry': ij, 'code': b2[ij], 'oracle': Ko2[ij]})
+    # numerical path at the undeformed state, any Gauss orders (also too low ones, different along x and y): the matrix is the
+    # discretised energy on exactly that grid
+    if d['model'] in ('plate', 'cpanel') and 'y1' not in d and rng.random() < 0.3:
+        c.tag('clause:numerical_path')
+        pn = gen.build_panel(d)
+        nxq = int(rng.integers(2, 13)); nyq = int(rng.integers(2, 13))
+        if nxq == nyq:
+            nyq += 1
+        c.desc['numerical_orders'] = [nxq, nyq]
+        try:
+            Kn = pn.calc_k0(size=d['size'], row0=d['row0'], col0=d['row0'], silent=True, c=np.zeros(d['size']), nx=nxq, ny=nyq)
+            bn, outn = energy.block(Kn, d['row0'], size_p)
+            Kq, Sq = oracle_k0(pn, d, orders=(nxq, nyq))
+            ratio, ij = entrywise_excess(bn, Kq, Sq, 1e-9)
+            c.judge('numerical k0 at c = 0 equals the energy discretised on the requested Gauss grid', ratio * 1e-9, 1e-9,
+                    data={'orders': [nxq, nyq], 'entry': ij, 'code': bn[ij], 'oracle': Kq[ij]})
+        except NotImplementedError as e:
+            c.info['numerical_rejected'] = str(e)[:80]
     # constant pre-load adds exactly the matching initial-stress matrix
     if rng.random() < 0.35:
         c.tag('clause:preload')
